@@ -190,4 +190,103 @@ theorem fmLines_snoc (text : Str) (h : '\r' ∉ text) (hne : text ≠ [])
     · exact absurd h3 hne
   simp [h2]
 
+/-! ### a block written out line by line (string level) -/
+
+/-- every line followed by a newline -/
+def unlines (ls : List Str) : Str := (ls.map (· ++ ['\n'])).flatten
+
+theorem unlines_cons (l : Str) (ls : List Str) : unlines (l :: ls) = l ++ '\n' :: unlines ls := by
+  simp [unlines]
+
+theorem splitNl_line : ∀ (l cur rest : Str), '\n' ∉ l →
+    splitNl (l ++ '\n' :: rest) cur = (cur.reverse ++ l) :: splitNl rest []
+  | [], cur, rest, _ => by simp [splitNl]
+  | c :: cs, cur, rest, h => by
+    have hc : c ≠ '\n' := fun e => h (by simp [e])
+    have ht : '\n' ∉ cs := fun e => h (by simp [e])
+    have h1 : splitNl (c :: cs ++ '\n' :: rest) cur = splitNl (cs ++ '\n' :: rest) (c :: cur) := by
+      simp [splitNl, hc]
+    rw [h1, splitNl_line cs (c :: cur) rest ht]; simp
+
+theorem pySplitNl_unlines : ∀ (ls : List Str) (rest : Str), (∀ l ∈ ls, '\n' ∉ l) →
+    pySplitNl (unlines ls ++ rest) = ls ++ pySplitNl rest
+  | [], rest, _ => by simp [unlines]
+  | l :: ls, rest, h => by
+    have ih := pySplitNl_unlines ls rest (fun x hx => h x (List.mem_cons_of_mem _ hx))
+    unfold pySplitNl at ih ⊢
+    rw [unlines_cons, List.append_assoc, List.cons_append,
+      splitNl_line l [] _ (h l List.mem_cons_self), ih]
+    simp
+
+theorem joinWith_unlines : ∀ (l : Str) (ls : List Str),
+    joinWith ['\n'] (l :: ls) ++ ['\n'] = unlines (l :: ls)
+  | l, [] => by simp [joinWith, unlines]
+  | l, b :: ls => by
+    rw [joinWith_cons_cons, unlines_cons, List.append_assoc, List.append_assoc, joinWith_unlines b ls]
+    simp
+
+theorem findClose_append : ∀ (mid : List Str) (c : Str) (rest acc : List Str),
+    (∀ l ∈ mid, isDelim l = false) → isDelim c = true →
+    findClose (mid ++ c :: rest) acc = some (acc.reverse ++ mid, c, rest)
+  | [], c, rest, acc, _, hc => by simp [findClose, hc]
+  | l :: mid, c, rest, acc, h, hc => by
+    have hl : isDelim l = false := h l List.mem_cons_self
+    simp only [List.cons_append, findClose, hl]
+    rw [findClose_append mid c rest (l :: acc) (fun x hx => h x (List.mem_cons_of_mem _ hx)) hc]
+    simp
+
+theorem not_blank_of_delim {l : Str} (h : isDelim l = true) : isBlank l = false := by
+  cases hb : isBlank l with
+  | false => rfl
+  | true => rw [not_delim_of_blank hb] at h; cases h
+
+/-- the last piece of a split removed when it is empty: the joined rest is the text, or the text
+without its final newline -/
+def popEmptyLast (B : List Str) : List Str := if B.getLast? == some [] then B.dropLast else B
+
+theorem join_popped (body : Str) :
+    joinWith ['\n'] (popEmptyLast (pySplitNl body)) = body ∨
+    joinWith ['\n'] (popEmptyLast (pySplitNl body)) ++ ['\n'] = body := by
+  have hj := join_pySplitNl body
+  generalize pySplitNl body = ls at hj
+  unfold popEmptyLast
+  split
+  · rename_i hl
+    have hne : ls ≠ [] := by intro h0; simp [h0] at hl
+    have hlast : ls.getLast hne = [] := by
+      have := List.getLast?_eq_some_getLast hne
+      simp only [beq_iff_eq] at hl
+      rw [hl] at this; exact (Option.some.inj this).symm
+    have hs : ls = ls.dropLast ++ [[]] := by
+      rw [← hlast]; exact (List.dropLast_concat_getLast hne).symm
+    generalize ls.dropLast = init at hs
+    subst hs
+    cases init with
+    | nil => left; simpa [joinWith] using hj
+    | cons a t =>
+      right
+      rw [← hj]
+      clear hj hl hne hlast
+      induction t generalizing a with
+      | nil => simp [joinWith]
+      | cons b t ih =>
+        simp only [List.cons_append, joinWith_cons_cons] at ih ⊢
+        rw [← ih b]; simp [List.append_assoc]
+  · left; exact hj
+
+theorem fmLines_eq_pop (text : Str) : fmLines text = popEmptyLast (pySplitNl (replaceCRLF text)) := rfl
+
+theorem popEmptyLast_append (A B : List Str) (hB : B ≠ []) :
+    popEmptyLast (A ++ B) = A ++ popEmptyLast B := by
+  unfold popEmptyLast
+  have hg : (A ++ B).getLast? = B.getLast? := by
+    cases B with
+    | nil => exact absurd rfl hB
+    | cons b t =>
+      rw [List.getLast?_append, List.getLast?_eq_some_getLast (List.cons_ne_nil b t)]; rfl
+  rw [hg]
+  split
+  · rw [List.dropLast_append_of_ne_nil hB]
+  · rfl
+
 end FM
